@@ -5,7 +5,8 @@ EXTENDS Deb822Struct, GenLib
 b(s) == s
 x == <<120>>  ab == <<97, SP, 98>>  acb == <<97, COMMA, SP, 98>>  l12 == <<108, 49, LF, 108, 50>>
 hashline == <<108, 49, LF, HASH, 50>>                   \* "l1\n#2" : a second line that starts with '#' is text
-Rec1 == [S : {<<>>, x, ab, l12, hashline, <<120, LF, LF>>, <<120, LF, 121, LF, LF, LF>>}, Renamed : {<<>>, <<114>>}, Req : {<<>>, <<113>>}, Skip : {<<>>, <<104, 105, 100>>},
+pct == <<49, 48, 48, 37, 32, 100, 111, 110, 101, 32, 37, 115, 45, 37, 100, 37>>          \* "100% done %s-%d%" : nothing in a value is a format directive
+Rec1 == [S : {<<>>, x, ab, l12, hashline, pct, <<120, LF, LF>>, <<120, LF, 121, LF, LF, LF>>}, Renamed : {<<>>, <<114>>}, Req : {<<>>, <<113>>}, Skip : {<<>>, <<104, 105, 100>>},
          Multi : {<<>>, <<109, 49, LF, 109, 50>>, <<111, 110, 101>>, <<109, 49, LF, SP, HASH, SP, 109, 50, LF, 109, 51>>}]
 Rec2 == [I : {0, 1, -7, 2147483647}, U : {0, 5, 1023, 1024, 65536, 2147483647}, B : BOOLEAN, ReqI : {0, 3}, ReqB : BOOLEAN]
 StrLists == {<<>>, <<<<97>>>>, <<<<98, SP, 99>>>>, <<<<97>>, <<98, SP, 99>>>>, <<<<98, SP, 99>>, <<97>>>>}
@@ -38,10 +39,11 @@ uB == <<88, 45, 66, 58, 32, 102, LF, SP, 109, 111, 114, 101, LF, SP, DOT, LF, SP
 uC == <<88, 45, 67, 58>>                                    \* "X-C:"
 uLower == <<110, 97, 109, 101, 58, 32, 108, 111, 119>>     \* "name: low"   (not the known key Name)
 uUpper == <<67, 79, 85, 78, 84, 58, 32, 55>>                \* "COUNT: 7"    (not the known key Count)
+uPct == <<88, 45, 80, 58, 32, 49, 48, 48, 37, 32, 100, 111, 110, 101, 32, 37, 115>>       \* "X-P: 100% done %s"
 Lines6 == {kName, kCount, kTags, uA, uB, uC}
 Perms(S) == {p \in [1..Cardinality(S) -> S] : \A i, j \in 1..Cardinality(S) : p[i] = p[j] => i = j}
 Subsets == {{kName, uA}, {uA, kCount, uB}, {kTags, uC, uA, kName}, {uA, uB, uC}, {kName, kCount, kTags}, {uB, kName},
-            {uLower, uA}, {uUpper, uLower, kTags}, {uLower, kName, uUpper}}
+            {uLower, uA}, {uUpper, uLower, kTags}, {uLower, kName, uUpper}, {uPct, kName}}
 DocOf(p) == Concat([i \in 1..Len(p) |-> p[i] \o <<LF>>])
 Sets == {[Name |-> <<99, 104, 97, 110, 103, 101, 100>>, Count |-> 9, Tags |-> <<<<122>>>>],
          [Name |-> <<>>, Count |-> 0, Tags |-> <<>>]}
